@@ -7,12 +7,12 @@
 package ilv
 
 import (
-	"strings"
 	"bytes"
 	"fmt"
 	"runtime"
 	"sort"
 	"strconv"
+	"strings"
 	"sync"
 	"sync/atomic"
 	"time"
@@ -47,7 +47,7 @@ type thread struct {
 type Point struct {
 	Enabled        []int // thread ids in canonical order (running thread first if still enabled, then ascending)
 	RunningEnabled bool
-	Chosen         int // index into Enabled
+	Chosen         int    // index into Enabled
 	Desc           string `json:",omitempty"` // only with Trace: what every live thread waits for
 }
 
@@ -56,13 +56,13 @@ var Trace = false
 
 // Result of one execution.
 type Result struct {
-	Points     []Point
-	Deadlock   string
-	Panics     []string
-	Harness    string // harness trouble (watchdog, settle): no verdict
-	Stacks     string // goroutine dump taken when the watchdog fired
-	Threads    int
-	LockOps    int
+	Points      []Point
+	Deadlock    string
+	Panics      []string
+	Harness     string // harness trouble (watchdog, settle): no verdict
+	Stacks      string // goroutine dump taken when the watchdog fired
+	Threads     int
+	LockOps     int
 	Preemptions int
 }
 
@@ -485,12 +485,12 @@ func Run(bodies []func(), names []string, prefix []int, limit time.Duration) *Re
 
 // Stats of one exploration.
 type Stats struct {
-	Executions  int
-	MaxPoints   int
-	Bound       int
-	Complete    bool
-	Pruned      int
-	Outcomes    map[string]int
+	Executions int
+	MaxPoints  int
+	Bound      int
+	Complete   bool
+	Pruned     int
+	Outcomes   map[string]int
 }
 
 // Explore enumerates all schedules with at most bound preemptions. exec builds a fresh world, runs it under Run with
